@@ -379,8 +379,129 @@ fn e_resolver(s: &str) -> Out {
   }
 }
 
+// ------------------------------------------------------------------------------------------------ jsonprooftoken::Jwk <-> Jwk
+const JPT_CURVES: [jsonprooftoken::jwk::curves::EllipticCurveTypes; 12] = {
+  use jsonprooftoken::jwk::curves::EllipticCurveTypes::*;
+  [P256, P384, P521, Ed25519, Ed448, X25519, X448, Secp256K1, BLS12381G1, BLS12381G2, BLS48581G1, BLS48581G2]
+};
+/// Follow-ups of a `jsonprooftoken` JWK that json-proof-token itself produced (deserialised or constructed):
+/// the conversion into `identity_jose::jwk::Jwk`, every accessor of the result, the reverse conversion and the
+/// conversion of THAT back again.
+fn jpt_jwk_followups(ext: jsonprooftoken::jwk::key::Jwk) -> Out {
+  use jsonprooftoken::jwk::key::Jwk as JwkExt;
+  // (no stage before the conversion: a panic inside it is keyed by the entry point alone)
+  match Jwk::try_from(ext.clone()) {
+    Err(e) => {
+      st("error Display/Debug");
+      bb((e.to_string().len(), format!("{e:?}").len()));
+      "rej:conversion"
+    }
+    Ok(jwk) => {
+      crate::json::jwk_accessors(&jwk);
+      st("TryInto<jsonprooftoken::Jwk>(&Jwk)");
+      let back: Result<JwkExt, _> = (&jwk).try_into();
+      match back {
+        Ok(b) => {
+          st("TryInto<jsonprooftoken::Jwk>(&Jwk)>accessors");
+          bb((b == ext, b.is_public(), b.is_private(), serde_json::to_string(&b).map(|t| t.len()).ok(), format!("{b:?}").len()));
+          st("TryInto<jsonprooftoken::Jwk>(&Jwk)>to_public>Jwk::try_from");
+          if let Some(p) = b.to_public() {
+            bb(Jwk::try_from(p).is_ok());
+          }
+          st("TryInto<jsonprooftoken::Jwk>(&Jwk)>Jwk::try_from");
+          bb(Jwk::try_from(b).map(|j| j == jwk).ok());
+          "accepted:round-trip"
+        }
+        Err(_) => "accepted:one-way",
+      }
+    }
+  }
+}
+const JPT_CTOR: &str = "built with the constructors of json-proof-token:";
+/// input = either the JSON text of a JWK (deserialised by json-proof-token) or a constructor descriptor
+/// `built with the constructors of json-proof-token:<ec|okp>:<curve index>:<d: 0|1>:<plain|public|members>` / `…:generate:<0|1>`
+/// (the descriptor is deliberately longer than the smallest JSON witness, so that a reported witness is a JSON key).
+fn e_jpt_jwk(s: &str) -> Out {
+  use jsonprooftoken::jpa::algs::ProofAlgorithm;
+  use jsonprooftoken::jwk::alg_parameters::{Algorithm, JwkAlgorithmParameters, JwkEllipticCurveKeyParameters, JwkOctetKeyPairParameters};
+  use jsonprooftoken::jwk::key::{Jwk as JwkExt, KeyOps, PKUse};
+  use jsonprooftoken::jwk::types::KeyPairSubtype;
+  if let Some(d) = s.strip_prefix(JPT_CTOR) {
+    let p: Vec<&str> = d.split(':').collect();
+    if p.len() == 2 && p[0] == "generate" {
+      // (a random BLS key pair: an opaque handle, the outcome does not depend on its value)
+      let Ok(k) = JwkExt::generate(if p[1] == "0" { KeyPairSubtype::BLS12381G2Sha256 } else { KeyPairSubtype::BLS12381G2Shake256 }) else { return "rej:constructor" };
+      bb(jpt_jwk_followups(k.to_public().unwrap_or_else(|| k.clone())));
+      return jpt_jwk_followups(k);
+    }
+    if p.len() != 4 {
+      return "rej:descriptor";
+    }
+    let Some(crv) = p[1].parse::<usize>().ok().and_then(|i| JPT_CURVES.get(i)).cloned() else { return "rej:descriptor" };
+    let (x, y, sk) = ([7u8; 32], [9u8; 32], [5u8; 32]);
+    let params = match p[0] {
+      "ec" => JwkAlgorithmParameters::EllipticCurve(JwkEllipticCurveKeyParameters::new(crv, &x, &y, if p[2] == "1" { Some(&sk) } else { None })),
+      _ => JwkAlgorithmParameters::OctetKeyPair(JwkOctetKeyPairParameters::new(crv, &x[..], if p[2] == "1" { Some(&sk[..]) } else { None })),
+    };
+    let mut k = JwkExt::from_key_params(params);
+    match p[3] {
+      "public" => {
+        // (json-proof-token's `to_public` of an EC key keeps the EC shape and labels it kty OKP)
+        let Some(pk) = k.to_public() else { return "rej:constructor" };
+        k = pk;
+      }
+      "members" => {
+        k.set_kid("kid-1");
+        k.set_pk_use(PKUse::Proof);
+        k.set_key_ops(vec![KeyOps::ProofGeneration, KeyOps::ProofVerification, KeyOps::Sign, KeyOps::DeriveBits]);
+        k.set_alg(Algorithm::Proof(ProofAlgorithm::BLS12381_SHA256));
+        k.set_x5u("https://example.com/x5u");
+        k.set_x5c(vec!["MIIB"]);
+        k.set_x5t("dGh1bWI");
+      }
+      _ => {}
+    }
+    return jpt_jwk_followups(k);
+  }
+  match serde_json::from_str::<JwkExt>(s) {
+    Err(_) => "rej:json-proof-token-json",
+    Ok(k) => jpt_jwk_followups(k),
+  }
+}
+/// input = the JSON text of a JWK for `identity_jose::jwk::Jwk`: the conversion into json-proof-token's type and back.
+fn e_jwk_into_jpt(s: &str) -> Out {
+  use jsonprooftoken::jwk::key::Jwk as JwkExt;
+  let Ok(jwk) = Jwk::from_json(s) else { return "rej:jwk-json" };
+  let r: Result<JwkExt, _> = (&jwk).try_into();
+  match r {
+    Err(e) => {
+      st("error Display/Debug");
+      bb((e.to_string().len(), format!("{e:?}").len()));
+      "rej:conversion"
+    }
+    Ok(ext) => {
+      st("accessors");
+      bb((ext.is_public(), ext.is_private(), serde_json::to_string(&ext).map(|t| t.len()).ok(), format!("{ext:?}").len(), ext.to_public().is_some()));
+      st("Jwk::try_from(back)");
+      match Jwk::try_from(ext) {
+        Ok(j) => {
+          crate::json::jwk_accessors(&j);
+          if j == jwk {
+            "accepted:round-trip-identical"
+          } else {
+            "accepted:round-trip-differs"
+          }
+        }
+        Err(_) => "accepted:one-way",
+      }
+    }
+  }
+}
+
 pub fn entries() -> Vec<Entry> {
   vec![
+    es("Jwk::try_from(jsonprooftoken::Jwk)", e_jpt_jwk),
+    es("TryInto<jsonprooftoken::Jwk>(&Jwk)", e_jwk_into_jpt),
     es("Resolver::resolve(DID string)", e_resolver),
     es("Status(RevocationBitmap2022)[index text]", e_rb_status_index),
     es("Status(RevocationBitmap2022)[id query]", e_rb_status_query),
@@ -968,7 +1089,7 @@ pub const SITES: &[(&str, &str, &str, &str)] = &[
   ("identity_did/src/did_url.rs", "&relative[..index]", "yes", "strings: DIDUrl::parse/join"),
   ("identity_did/src/did_url.rs", "&segment[i..]", "yes: percent-escape validation of path/query/fragment", "strings: DIDUrl::parse/join/set_path/set_query/set_fragment"),
   // ---- identity_jose
-  ("identity_jose/src/jwk/jwk_ext.rs", "_ => unreachable!()", "yes in principle (TryFrom<jsonprooftoken::Jwk> with non-EC parameters; the impl is compiled unconditionally) — its callers live behind `jpt-bbs-plus` (off), and the harness cannot name the type: `jsonprooftoken` is not a dependency of vcheck", "NOT COVERED"),
+  ("identity_jose/src/jwk/jwk_ext.rs", "_ => unreachable!()", "yes: TryFrom<jsonprooftoken::Jwk> for Jwk with OKP-shaped parameters (the impl is compiled unconditionally; its in-tree callers live behind `jpt-bbs-plus`, which is off)", "census: Jwk::try_from(jsonprooftoken::Jwk) (JSON key-family product, member product, tree mutations, constructors)"),
   // ---- identity_document
   ("identity_document/src/document/core_document.rs", "expect(\"unwrapping infallible should be fine\")", "yes: map_unchecked on unpacked documents", "binary: StateMetadataDocument::unpack > into_iota_document; json: StateMetadataDocument::from_json"),
   // ---- identity_credential
@@ -1143,6 +1264,152 @@ pub fn generate(ctx: &Ctx) {
     sw("Resolver::resolve(DID string)", A_B64, &[(&jwk_did, ""), (&jwk_did[..jwk_did.len() - 3], ""), (&jwk_did_ec, ""), ("did:jwk:eyJ", "")], (3, 4)),
   ];
   crate::strings::run_sweeps(ctx, "census: identity_resolver with handlers over DIDJwk / IotaDID / CoreDID", &sweeps);
+
+  // ---------------------------------------------------------------- jsonprooftoken::Jwk <-> Jwk (census: jwk_ext.rs `unreachable!()`)
+  {
+    let b64 = |n: usize| vx::fx::b64(vec![7u8; n]);
+    let curves: Vec<Option<String>> = JPT_CURVES.iter().map(|c| Some(c.to_string())).chain([Some("P-999".to_string()), None]).collect();
+    let ktys: [Option<&str>; 6] = [Some("EC"), Some("OKP"), Some("RSA"), Some("oct"), Some("XX"), None];
+    let coords: [String; 3] = [b64(32), String::new(), "!! not base64".to_string()];
+    let member_sets: [&str; 9] = [
+      "",
+      r#","kid":"k""#,
+      r#","use":"proof""#,
+      r#","key_ops":["proofGeneration","proofVerification"]"#,
+      r#","alg":"BBS-BLS12381-SHA256""#,
+      r#","x5u":"https://example.com/x5u""#,
+      r#","x5u":"not a url""#,
+      r#","x5c":["MIIB"],"x5t":"dGh1bWI""#,
+      r#","kid":"k","use":"sig","key_ops":["sign","verify","encrypt","decrypt","wrapKey","unwrapKey","deriveKey","deriveBits","proofGeneration","proofVerification"],"alg":"BBS-BLS12381-SHAKE256","x5u":"https://example.com/x5u","x5c":["MIIB","MIIC"],"x5t":"dGh1bWI","x5t#S256":"dGh1bWI","unknown":{"a":[1]}"#,
+    ];
+    let key_text = |with_y: bool, kty: Option<&str>, crv: &Option<String>, private: bool, coord: &str, members: &str| -> String {
+      let mut m: Vec<String> = Vec::new();
+      if let Some(k) = kty {
+        m.push(format!(r#""kty":"{k}""#));
+      }
+      if let Some(c) = crv {
+        m.push(format!(r#""crv":"{c}""#));
+      }
+      m.push(format!(r#""x":{}"#, js(coord)));
+      if with_y {
+        m.push(format!(r#""y":{}"#, js(coord)));
+      }
+      if private {
+        m.push(format!(r#""d":{}"#, js(coord)));
+      }
+      format!("{{{}{members}}}", m.join(","))
+    };
+    let mut cases: Vec<(&'static str, String)> = Vec::new();
+    // (A) every key family json-proof-token can express: shape (EC: x+y / OKP: x) x kty x crv x public/private x coordinate text x member set
+    for with_y in [true, false] {
+      for kty in ktys {
+        for crv in &curves {
+          for private in [false, true] {
+            for coord in &coords {
+              for members in member_sets {
+                cases.push(("Jwk::try_from(jsonprooftoken::Jwk)", key_text(with_y, kty, crv, private, coord, members)));
+              }
+            }
+          }
+        }
+      }
+    }
+    // (B) the full product of the optional members on four representative key families
+    let uses: [Option<&str>; 5] = [None, Some(r#""sig""#), Some(r#""enc""#), Some(r#""proof""#), Some(r#""bad""#)];
+    let opss: [Option<&str>; 4] = [None, Some("[]"), Some(r#"["sign","verify","encrypt","decrypt","wrapKey","unwrapKey","deriveKey","deriveBits","proofGeneration","proofVerification"]"#), Some(r#"["bad"]"#)];
+    let algs: [Option<&str>; 12] = [None, Some("BBS-BLS12381-SHA256"), Some("BBS-BLS12381-SHAKE256"), Some("SU-ES256"), Some("MAC-H256"), Some("MAC-H384"), Some("MAC-H512"), Some("MAC-K25519"), Some("MAC-K448"), Some("MAC-H256K"), Some("EdDSA"), Some("")];
+    let x5us: [Option<&str>; 3] = [None, Some("https://example.com/x5u"), Some("not a url")];
+    let families: [(bool, &str, &str, bool); 4] = [(true, "EC", "P-256", false), (true, "EC", "BLS12381G2", true), (false, "OKP", "Ed25519", false), (true, "OKP", "BLS12381G2", false)];
+    for (with_y, kty, crv, private) in families {
+      for u in uses {
+        for o in opss {
+          for a in algs {
+            for x in x5us {
+              for rest in ["", r#","kid":"k","x5c":["MIIB"],"x5t":"dGh1bWI""#] {
+                let mut members = String::new();
+                if let Some(u) = u {
+                  members.push_str(&format!(r#","use":{u}"#));
+                }
+                if let Some(o) = o {
+                  members.push_str(&format!(r#","key_ops":{o}"#));
+                }
+                if let Some(a) = a {
+                  members.push_str(&format!(r#","alg":{}"#, js(a)));
+                }
+                if let Some(x) = x {
+                  members.push_str(&format!(r#","x5u":{}"#, js(x)));
+                }
+                members.push_str(rest);
+                cases.push(("Jwk::try_from(jsonprooftoken::Jwk)", key_text(with_y, Some(kty), &Some(crv.to_string()), private, &coords[0], &members)));
+              }
+            }
+          }
+        }
+      }
+    }
+    // (C) every node x mutation menu of two rich seeds (an EC key and an OKP key)
+    for (with_y, kty, crv) in [(true, "EC", "BLS12381G2"), (false, "OKP", "Ed25519")] {
+      let seed = crate::json::J::parse(&key_text(with_y, Some(kty), &Some(crv.to_string()), true, &coords[0], member_sets[8]));
+      for p in seed.paths() {
+        for m in 0..crate::json::N_MUT {
+          let mut j = seed.clone();
+          if crate::json::mutate(&mut j, &p, m) {
+            cases.push(("Jwk::try_from(jsonprooftoken::Jwk)", j.text()));
+          }
+        }
+      }
+    }
+    // (D) json-proof-token's constructors
+    for kind in ["ec", "okp"] {
+      for c in 0..JPT_CURVES.len() {
+        for d in [0, 1] {
+          for via in ["plain", "public", "members"] {
+            cases.push(("Jwk::try_from(jsonprooftoken::Jwk)", format!("{JPT_CTOR}{kind}:{c}:{d}:{via}")));
+          }
+        }
+      }
+    }
+    cases.push(("Jwk::try_from(jsonprooftoken::Jwk)", format!("{JPT_CTOR}generate:0")));
+    cases.push(("Jwk::try_from(jsonprooftoken::Jwk)", format!("{JPT_CTOR}generate:1")));
+    let n_forward = cases.len();
+    // (E) the reverse direction: every key family of identity_jose's own Jwk x crv text x alg x members
+    let mut rev: Vec<String> = [crate::json::SEED_JWK_OKP, crate::json::SEED_JWK_OKP_PRIV, crate::json::SEED_JWK_EC, crate::json::SEED_JWK_EC_K, crate::json::SEED_JWK_RSA, crate::json::SEED_JWK_OCT, crate::json::SEED_JWK_X25519].iter().map(|s| s.to_string()).collect();
+    for crv in curves.iter().flatten().map(|s| s.as_str()).chain(["", "bls12381g2", "BLS12381G2 "]) {
+      for private in [false, true] {
+        for a in algs {
+          for (u, o) in [(None, None), (Some(r#""proof""#), Some(r#"["proofGeneration","proofVerification","sign","deriveBits"]"#)), (Some(r#""enc""#), Some("[]"))] {
+            for x in [None, Some("https://example.com/x5u")] {
+              let mut members = String::new();
+              if let Some(u) = u {
+                members.push_str(&format!(r#","use":{u}"#));
+              }
+              if let Some(o) = o {
+                members.push_str(&format!(r#","key_ops":{o}"#));
+              }
+              if let Some(a) = a {
+                members.push_str(&format!(r#","alg":{}"#, js(a)));
+              }
+              if let Some(x) = x {
+                members.push_str(&format!(r#","x5u":{},"x5c":["MIIB"],"x5t":"dGh1bWI","x5t#S256":"dGh1bWI","kid":"k""#, js(x)));
+              }
+              rev.push(key_text(true, Some("EC"), &Some(crv.to_string()), private, &coords[0], &members));
+            }
+          }
+        }
+      }
+    }
+    for t in rev {
+      cases.push(("TryInto<jsonprooftoken::Jwk>(&Jwk)", t));
+    }
+    crate::strings::run_list(
+      ctx,
+      "census: jsonprooftoken::Jwk <-> identity_jose Jwk conversions",
+      &cases,
+      json!({"forward_cases": n_forward, "reverse_cases": cases.len() - n_forward,
+        "forward": "JSON deserialised by json-proof-token: shape{x+y,x} x kty{EC,OKP,RSA,oct,XX,absent} x crv{12 curves,P-999,absent} x {public,private} x coordinate{32 bytes,empty,not base64} x 9 member sets; use(5) x key_ops(4) x alg(12) x x5u(3) x rest(2) on 4 key families; every node x mutation menu of an EC and an OKP seed; constructors {EC,OKP parameters} x 12 curves x {public,private} x {from_key_params, to_public, all setters} + generate x 2",
+        "reverse": "7 seed JWKs; EC x crv text(17) x {public,private} x alg(12) x members(3) x x5u(2)"}),
+    );
+  }
 
   // ---------------------------------------------------------------- Timestamp::from_unix boundaries
   let mut cases: Vec<(&'static str, String)> = Vec::new();
